@@ -15,6 +15,7 @@ from fractions import Fraction as F
 import numpy as np
 from . import core
 from .core import q, ql, unq, unql, err_kind
+from .translator import free as trf
 
 N = 200
 KEYS = ["maximum", "mean", "median", "minimum", "mode", "std", "var"]
@@ -62,11 +63,30 @@ def const_tables():
     return _CONST
 
 
+_FACTS = {}
+
+
+def src_facts():
+    """which formula the source uses for the maximal std and the rounding allowance it grants (translator/free.py)"""
+    if not _FACTS:
+        try:
+            _FACTS.update(trf.facts(core.REPO))
+        except Exception as e:      # restructured source: fall back to the pinned form; the tie will tell
+            _FACTS.update({"smax_form": "centred", "slack": F(0), "unavailable": str(e)})
+    return _FACTS
+
+
 def roots_for(a, b, mu, sd):
     """smax and the x5**0.5 table, float arithmetic in the order of the source; None when not computable"""
     try:
+        fx = src_facts()
         ran = b - a
-        smax = (abs(ran * ran / 4.0 - (b - mu - ran / 2.0) ** 2)) ** 0.5
+        if fx["smax_form"] == "product":
+            smax = (abs((mu - a) * (b - mu))) ** 0.5
+        else:
+            smax = (abs(ran * ran / 4.0 - (b - mu - ran / 2.0) ** 2)) ** 0.5
+        if fx["slack"] > 0 and smax < sd <= smax * (1.0 + float(fx["slack"])):
+            sd = smax
         s5 = [0.0] * (N + 1)
         if ran != 0:
             sl = sd / ran
@@ -137,12 +157,12 @@ def wire(fn, args):
         return f"meanvar {g('mean')} {g('var')} {q(float(np.sqrt(args['var'])))} {C['tL_w']} {C['tR_w']}"
     if fn == "min_max_mean_std":
         r = roots_for(float(args["minimum"]), float(args["maximum"]), float(args["mean"]), float(args["std"]))
-        return (f"mmms {g('minimum')} {g('maximum')} {g('mean')} {g('std')} {q(r[0])} "
+        return (f"mmms {g('minimum')} {g('maximum')} {g('mean')} {g('std')} {q(r[0])} {q(src_facts()['slack'])} "
                 f"{C['t1_w']} {C['t2_w']} {ql(r[1])}")
     if fn == "min_max_mean_var":
         s = float(np.sqrt(args["var"]))
         r = roots_for(float(args["minimum"]), float(args["maximum"]), float(args["mean"]), s)
-        return (f"mmmv {g('minimum')} {g('maximum')} {g('mean')} {g('var')} {q(s)} {q(r[0])} "
+        return (f"mmmv {g('minimum')} {g('maximum')} {g('mean')} {g('var')} {q(s)} {q(r[0])} {q(src_facts()['slack'])} "
                 f"{C['t1_w']} {C['t2_w']} {ql(r[1])}")
     if fn == "known_properties":
         o = lambda k: q(args[k]) if args.get(k) is not None else "-"
@@ -156,7 +176,7 @@ def wire(fn, args):
         smax, s5 = (q(r[0]), ql(r[1])) if r else ("0", C["zero201"])
         fam = "1" if args.get("family") is not None else "0"
         return (f"kp {o('maximum')} {o('mean')} {o('median')} {o('minimum')} {o('mode')} {o('std')} {o('var')} "
-                f"{fam} {q(s)} {smax} {C['tL_w']} {C['tR_w']} {C['t1_w']} {C['t2_w']} {s5}")
+                f"{fam} {q(s)} {smax} {q(src_facts()['slack'])} {C['tL_w']} {C['tR_w']} {C['t1_w']} {C['t2_w']} {s5}")
     raise ValueError(fn)
 
 
@@ -889,7 +909,9 @@ def run(ctx: core.Check, cases=None):
         "oracle tolerance 1e-9 relative to max(input scale, |bound|) on values and 1e-12 on probability levels (an atom must overlap a step by more than that); 'unimodal' is represented by Khinchin mixtures of uniforms; "
         "laws meet mean and variance constraints exactly (two-point laws are parametrised by the lower atom, no square root)",
     ]
-    ctx.lean_stage(["Pun.Lemmas.FreeLaw", "Pun.Props.C10"])
+    ctx.lean_stage(["Pun.Lemmas.FreeLaw", "Pun.Props.C10", "Pun.Props.C10Gen"],
+                   generators=[("pbox_free.py closed-form formulas", lambda: trf.generate(core.REPO, core.LEAN / "Pun/Gen/FreeGen.lean"))])
+    ctx.extraction["min_max_mean_std facts"] = {k: str(v) for k, v in src_facts().items()}
     if cases is None:
         cases = gen_cases(ctx)
     reqs = [wire(fn, A) for (_, fn, A, _) in cases]
